@@ -3140,6 +3140,13 @@ class MOFCompiler:
                 msg=_format("MOF file {0!A} is not UTF-8 encoded: {1}",
                             filename, exc))
 
+        if os.path.abspath(filename) in self._files_in_progress:
+            # E.g. the MOF files found on the search path for two classes
+            # that name each other as superclass.
+            raise MOFDependencyError(
+                msg=_format("Circular dependency: MOF file {0!A} is needed "
+                            "while it is being compiled", filename))
+
         self._files_in_progress.append(os.path.abspath(filename))
         try:
             return self.compile_string(mof, ns, filename=filename)
